@@ -40,7 +40,7 @@ ASSUMPTIONS = [
 ]
 MIN_NONTRIVIAL = {"quick": 150, "thorough": 1500}
 REQUIRED_COUNTERS = ["cells.save", "cells.query_stored", "cells.query_stored_concurrent", "cells.query_live", "cells.can_do", "cells.refused_then_authenticated",
-                     "validator.frames_checked", "readback.assignments", "readback.after_reopen"]
+                     "validator.frames_checked", "readback.assignments", "readback.after_reopen", "readback.listed"]
 SHARD_TIMEOUT = {"quick": 600, "thorough": 3200}
 ALPHA = "arws"
 SUBSETS = ["".join(c) for n in range(1, 5) for c in itertools.combinations(ALPHA, n)]
@@ -159,10 +159,19 @@ async def run_map(backend, save_roles, query_roles, counters, seed):
             await authenticate(ci, intruder, rig)
             conns["@intruder"] = ci
         # ---- save ----------------------------------------------------------------------------
+        # somebody who may read everything listens: a refused event must not be broadcast either
+        listener = None
+        lk = next((rs_ for rs_ in keys if rs_ and set(rs_) & set(query_roles)), None)
+        if lk is not None and not conns[lk].exited:
+            listener = conns[lk]
+            await listener.cmd(["REQ", "listen", {"kinds": [1, 5, 10002, 20001, 29999, 30023], "since": gen.T0 - 1}])
+            await rig.quiesce()
         submitted = {}
         for rs, c in conns.items():
             author = keys.get(rs) or (intruder if rs == "@intruder" else ref.key_from_seed("c14-anon"))
-            ev = ref.make_event(author, kind=1, created_at=gen.T0 + len(submitted), content="by %s" % (rs or "anon"))
+            # regular, replaceable, deletion and ephemeral kinds alike (an ephemeral event is not stored, it is broadcast)
+            kind_ = [1, 20001, 10002, 5, 30023, 1, 29999][(seed + len(submitted)) % 7]
+            ev = ref.make_event(author, kind=kind_, created_at=gen.T0 + len(submitted), tags=[["d", "x"]] if kind_ == 30023 else [], content="by %s" % (rs or "anon"))
             n0 = rig.rec.n
             if not c.exited:
                 await c.cmd(["EVENT", ev])
@@ -189,6 +198,10 @@ async def run_map(backend, save_roles, query_roles, counters, seed):
                     viols.append({"key": "%s/save-not-refused" % backend, "msg": "[%s] save=%s: connection with roles %s got OK=%s %r for an EVENT" % (backend, save_roles, rs or "anon", ok, reason), "replay": rp})
                 if ev["id"] in d["events"]:
                     viols.append({"key": "%s/save-stored-without-role" % backend, "msg": "[%s] save=%s: event from a connection with roles %s was stored" % (backend, save_roles, rs or "anon"), "replay": rp})
+                if listener is not None and any(isinstance(f, list) and len(f) > 2 and f[0] == "EVENT" and f[1] == "listen" and f[2].get("id") == ev["id"] for _, f in listener.parsed_frames()):
+                    viols.append({"key": "%s/save-broadcast-without-role/%s" % (backend, ref.kind_class(ev["kind"])),
+                                  "msg": "[%s] save=%s: kind %d event from a connection with roles %s was pushed to a subscriber" % (backend, save_roles, ev["kind"], rs or "anon"), "replay": rp})
+                bump(cells, "save_refused_broadcast_checked")
         # ---- query (stored) ------------------------------------------------------------------------
         stored_ids = set(d["events"].keys())
         together = seed % 2 == 0
@@ -257,6 +270,16 @@ async def run_map(backend, save_roles, query_roles, counters, seed):
             for c in q2:
                 await c.processed()
             await rig.quiesce()
+            # what the validator lets through for a connection is still delivered when it refuses other results
+            dd = dump.dump(rig)
+            if pubs[0]["id"] in dd["events"]:
+                for c in q2:
+                    got_q2 = {f[2].get("id") for n, f in c.parsed_frames() if isinstance(f, list) and len(f) > 2 and f[0] == "EVENT" and f[1] == "q2"}
+                    bump(cells, "query_stored_with_refusals")
+                    if pubs[0]["id"] not in got_q2 and not c.exited:
+                        viols.append({"key": "%s/stored-result-lost-behind-refused-one" % backend,
+                                      "msg": "[%s] REQ ids of three stored events, two of which the output validator refuses for this connection: the third (%r) was not delivered either (got %d events)"
+                                             % (backend, pubs[0]["content"], len(got_q2)), "replay": rp})
             # ---- a REQ that was refused leaves nothing behind ------------------------------------------
             # the connection asks too early, is refused, authenticates, subscribes under ANOTHER id
             reader_rs = next((rs for rs in keys if rs and set(rs) & set(query_roles)), None)
@@ -310,12 +333,15 @@ async def run_map(backend, save_roles, query_roles, counters, seed):
 
 async def run_readback(backend, n, counters, seed):
     service = ref.key_from_seed("service")
-    rig = R.Rig(backend=backend, config={"analysis_delay": 0, "service_privatekey": service.sk_hex,
+    # max_limit (a bound on what a REQ returns) is set far below the number of assignments: the relay's own
+    # look-ups of the role table are not client REQs
+    rig = R.Rig(backend=backend, config={"analysis_delay": 0, "service_privatekey": service.sk_hex, "max_limit": 5,
                                           "authentication": {"enabled": True, "relay_urls": ["ws://localhost:6969"]}})
     await rig.start()
     viols, nontrivial = [], []
     rb = counters.setdefault("readback", {})
     r = random.Random(seed)
+    final_roles = {}
     try:
         for i in range(n):
             k = ref.key_from_seed("c14-rb-%d-%d" % (seed, i))
@@ -337,9 +363,22 @@ async def run_readback(backend, n, counters, seed):
             await rig.quiesce()
             got = await rig.storage.get_auth_roles(k.pk)
             want = set(seq[-1].lower())
+            final_roles[k.pk] = want
             if got != want and not (want == set() and got in (set(), {"a"})):
                 viols.append({"key": "%s/readback/final" % backend, "msg": "[%s] after assignments %s the roles read back as %s" % (backend, seq, sorted(got)),
                               "replay": {"backend": backend, "mode": "readback", "seed": seed, "n": n}})
+        # the whole table, as `nostr-relay role get` lists it
+        listing = {}
+        async for pk, roles in rig.storage.get_all_auth_roles():
+            listing[pk] = set(roles)
+        rb["listed"] = rb.get("listed", 0) + len(listing)
+        missing = [pk for pk, want in final_roles.items() if want and listing.get(pk) != want]
+        nontrivial.append(h([backend, "listing", n]))
+        if missing:
+            viols.append({"key": "%s/readback/listing-incomplete" % backend,
+                          "msg": "[%s] %d pubkeys have roles (max_limit 5); the listing of all assignments shows %d, %d of the assigned ones are missing or differ (e.g. %s: %s instead of %s)"
+                                 % (backend, sum(1 for w in final_roles.values() if w), len(listing), len(missing), missing[0][:8], sorted(listing.get(missing[0], [])), sorted(final_roles[missing[0]])),
+                          "replay": {"backend": backend, "mode": "readback", "seed": seed, "n": n}})
     finally:
         await rig.close()
     return viols, nontrivial
